@@ -23,7 +23,7 @@ SDL = "type A { id: ID! a: Int } type Query { num: Int! color: String a: A hello
 SCHEMA = S.parse_sdl(SDL)
 ROOT = {"num": 7, "color": "c", "a": {"id": "i1", "a": 3}, "hello": "h"}
 
-DOC_A = "query Q($s: Boolean = false) { num @skip(if: $s) a { id } }"
+DOC_A = "query Q($s: Boolean = false) { num @skip(if: $s) a { ...AF } } fragment AF on A { id a @include(if: $s) }"
 DOC_2 = "query One { num } query Two { color a { a } }"
 ALPHABET = [
     ("A", DOC_A, None, {}, {}),
